@@ -75,6 +75,12 @@ pub fn crypto_algos(c: &Crypto) -> (bool, Vec<(u8, f32)>) {
     (c.algorithms.allow_unencrypted, ids)
 }
 
+pub fn set_attempt_salt<P: Payload>(pc: &mut PeerCrypto<P>, salt: [u8; 4]) {
+    if let Some(i) = pc.init.as_mut() {
+        crate::crypto::verif_hooks_init::set_salt(i, salt)
+    }
+}
+
 /// the keys a `Crypto` trusts
 pub fn crypto_trusted(c: &Crypto) -> Vec<Vec<u8>> {
     c.trusted_keys.iter().map(|k| k.to_vec()).collect()
